@@ -56,7 +56,7 @@ func genC01w(t *rapid.T) c01wCase {
 		DelPct:   rapid.SampledFrom([]int{0, 0, 5, 30}).Draw(t, "del"),
 		RangePct: rapid.SampledFrom([]int{0, 2, 10}).Draw(t, "range"),
 		TTLPct:   rapid.SampledFrom([]int{0, 0, 20}).Draw(t, "ttl"),
-		Procs:    rapid.SampledFrom([]int{0, 0, 2, 4}).Draw(t, "procs"),
+		Procs:    rapid.SampledFrom([]int{0, 0, 2, 4, -2, -2}).Draw(t, "procs"), // -2: doubled for the case, i.e. raised after package init (some shards start with GOMAXPROCS 4 or 8)
 		Seed:     rapid.IntRange(1, 1<<30).Draw(t, "seed"),
 	}
 }
@@ -86,6 +86,8 @@ func execC01w(c c01wCase, x *verifkit.Ctx) *verifkit.Failure {
 	vkRealTime()
 	if c.Procs > 0 {
 		defer runtime.GOMAXPROCS(runtime.GOMAXPROCS(c.Procs))
+	} else if c.Procs < 0 {
+		defer runtime.GOMAXPROCS(runtime.GOMAXPROCS(2 * runtime.GOMAXPROCS(0)))
 	}
 	var bad atomic.Pointer[verifkit.Failure]
 	report := func(where string, key int, v c01wVal) {
